@@ -408,6 +408,8 @@ def parse_types(element: dict, parent_ns: NamespaceTree) -> Types:
             elements.append(parse_enum(type_item, parent_ns))
         elif cls == 'subint':
             elements.append(parse_subint(type_item, parent_ns))
+        elif cls == 'extern':
+            elements.append(parse_extern(type_item, parent_ns))
         else:
             print(f'parse_types: skipping item {cls}')
     return Types(elements=elements)
@@ -484,6 +486,7 @@ class DznJsonAst:
                 fct.interfaces.append(interface)
                 fct.enums.extend(interface.types.enums)
                 fct.subints.extend(interface.types.subints)
+                fct.externs.extend(interface.types.externs)
             elif cls == 'namespace':
                 namespace = parse_namespace(element)
                 sub_ns = NamespaceTree(parent=parent_ns,
